@@ -45,8 +45,12 @@ SingleValueArgs ==
   [skip |-> {1}, take |-> {1}, extension |-> {1}, indexOf |-> {1}, substring |-> {1, 2}, startsWith |-> {1}, endsWith |-> {1},
    contains |-> {1}, replace |-> {1, 2}, matches |-> {1}, replaceMatches |-> {1, 2}, log |-> {1}, power |-> {1}, round |-> {1}]
 
-EmptyForms == [lit |-> "{}", path |-> "Patient.photo", var |-> "%none"]
-Forms == {"lit", "path", "var"}
+(* the empty collection as a literal, an absent element, an empty environment collection, and COMPUTED in the middle of an   *)
+(* expression: distinct() of nothing, a filter that matched nothing, a subset beyond the end, an extension that is not there *)
+EmptyForms == [lit |-> "{}", path |-> "Patient.photo", var |-> "%none",
+               distinct |-> "%none.distinct()", filtered |-> "%ints.where($this > 9)", beyond |-> "%ints.skip(9)",
+               noext |-> "Patient.extension('http://example.org/ext/none')"]
+Forms == {"lit", "path", "var", "distinct", "filtered", "beyond", "noext"}
 
 KnownNoArg == {"empty", "allTrue", "anyTrue", "allFalse", "anyFalse", "count", "distinct", "isDistinct", "first", "last", "tail",
                "toBoolean", "convertsToBoolean", "toInteger", "convertsToInteger", "toDate", "convertsToDate", "toDateTime",
@@ -68,7 +72,7 @@ FnText(c) ==
 
 (* operator cases: [kind "op", op, pos in {"l","r","both"}, form] *)
 (* the non-empty operand of a binary operator: whatever its type, an empty other operand gives empty *)
-OtherOperands == <<"1", "'a'", "1.5", "@2020", "@T10:00", "1 'mg'", "true", "Patient.gender", "Patient.multipleBirth">>
+OtherOperands == <<"1", "'a'", "1.5", "@2020", "@T10:00", "1 'mg'", "true", "Patient.gender", "Patient.multipleBirth", "Patient.name.given", "%ints">>
 BinOps == {"+", "-", "*", "/", "div", "mod", "<", "<=", ">", ">=", "=", "!=", "&"}
 OpText(c) ==
   LET e == EmptyForms[c.form]
